@@ -20,7 +20,8 @@ import (
 	"strings"
 )
 
-var pkgs = []string{"internal/css_lexer", "internal/css_parser", "internal/js_lexer", "internal/js_parser", "internal/helpers", "internal/logger"}
+var pkgs = []string{"internal/css_lexer", "internal/css_parser", "internal/js_lexer", "internal/js_parser", "internal/helpers", "internal/logger",
+	"internal/js_printer", "internal/css_printer", "internal/sourcemap", "internal/bundler", "internal/linker", "internal/resolver", "pkg/api", "pkg/cli", "cmd/esbuild"}
 
 func die(format string, a ...interface{}) {
 	fmt.Fprintf(os.Stderr, "t8decodeloops: "+format+"\n", a...)
@@ -131,7 +132,7 @@ func comparesWithZero(n ast.Node, name string) bool {
 
 type site struct {
 	pkg, fn, decoder, loop, guard string
-	ord                            int
+	ord                           int
 }
 
 func main() {
